@@ -1,4 +1,5 @@
 mod core;
+mod engines;
 mod props;
 mod spec;
 
